@@ -180,7 +180,7 @@ Lemma lp_line_eq s k legacy m i :
   optgap s k ++ recase s (k + 1) (opcode_name (i_op i)) ++ dotmod s k legacy (i_md i)
   ++ gap s (k + 3) ++ [amode_char (i_am i)] ++ gap s (k + 4) ++ field_text s (k + 5) m (i_a i)
   ++ optgap s (k + 6) ++ [44] ++ gap s (k + 7) ++ [amode_char (i_bm i)] ++ gap s (k + 8) ++ field_text s (k + 9) m (i_b i)
-  ++ (match pick s (k + 10) 5 with 0 => gap s (k + 11) ++ s2t "; c" | _ => [] end).
+  ++ (match pick s (k + 10) 5 with 0 => gap s (k + 11) ++ lp_comment s (k + 12) | _ => [] end).
 Proof. unfold lp_line, dotmod. destruct legacy; reflexivity. Qed.
 
 Lemma proc_line s k legacy m i E : tailt E ->
@@ -222,7 +222,7 @@ Proof.
     destruct (pick s (k + 10) 5) as [|p].
     - rewrite lower_app, (lower_stable (gap s (k + 11))) by (apply blank_stable; assumption).
       rewrite <- app_assoc, bs_stable by (apply blank_stable; assumption).
-      cbn. apply app_nil_r.
+      unfold lp_comment. cbn [lower map app lower_c is_upper_a]. cbn. apply app_nil_r.
     - cbn [lower map app]. rewrite lower_stable by (apply tail_stable; exact HE).
       apply bs_stable_end. apply tail_stable. exact HE. }
   cbv zeta. rewrite Hlow. clear Hlow. split.
@@ -438,7 +438,8 @@ Proof.
     + apply recase_nonl_op.
     + unfold dotmod. destruct legacy; [constructor|]. apply nonl_app; [repeat constructor; discriminate|apply recase_nonl_md].
     + repeat constructor; discriminate.
-    + destruct (pick s (k + 10) 5); [|constructor]. apply nonl_app; [apply blank_nonl, gap_blank|repeat constructor; discriminate].
+    + destruct (pick s (k + 10) 5); [|constructor]. apply nonl_app; [apply blank_nonl, gap_blank|].
+      unfold lp_comment. destruct (pick s (k + 12) 3) as [|[q|q|]]; repeat constructor; discriminate.
   - intros E. apply (f_equal (@length N)) in E. rewrite !app_length in E. cbn [length] in E. lia.
 Qed.
 
